@@ -17,7 +17,7 @@ from props import formulation_harness as fh
 
 HEADER = ("From Coq Require Import ZArith QArith Qcanon List.\n"
           "From VQ Require Import Base LinAlg Penalty.\nImport ListNotations.")
-CONFIGS = [(feas, pp) for feas in (False, True) for pp in (None, 0, 1, 7, 0.5)]
+CONFIGS = [(feas, pp) for feas in (False, True) for pp in (None, 0, 1, 7, 0.5, 2 ** 24 + 1)]      # 2^24+1: not representable in single precision
 
 
 def rho_of(rp, feas, pp):
